@@ -852,8 +852,10 @@ class C13(L1Prop):
         for i, ((oa, ra, _), (ob, rb, _)) in enumerate(zip(a, b)):
             if oa.split()[0] == "rows":
                 continue
-            # op lines may differ in the clock reading only
-            if not same_line(oa, ra, rb):
+            # the two backends are driven by separate processes at different wall-clock times:
+            # snapshot times are compared only coarsely here (each run is compared with the model,
+            # which is given that run's own clock readings, to the second)
+            if not same_line(oa, ra, rb, tol=3600):
                 return [f"op {i} `{oa}`: in-memory backend answered `{ra}`, SQLite answered `{rb}`"]
         if len(a) != len(b):
             return [f"traces differ in length: {len(a)} vs {len(b)}"]
